@@ -1,5 +1,6 @@
 import Chess.Lemmas.Reach
 import Chess.Lemmas.SearchF
+import Chess.Lemmas.CallShape
 
 /-!
 # C08 — depth-limited and unlimited searches end cleanly whatever the table holds
@@ -46,8 +47,7 @@ theorem fuel_never_runs_out (o : Ops G M) (runs : Nat → Bool) (g : G) (tt : Ta
 
 /-- **C08.4** However long an unlimited search runs, the ply counter stays inside the killer table
 and the history cell inside 16 bits — on the EXTRACTED constants (`MAX_DEPTH`, killer length). The
-call-shape fact `remaining + ply = depth` is read off `node`/`rootSearch` (root calls
-`node (depth-1)` at ply 1; `node (r+2)` calls `node (r+1)` at ply+1). -/
+call-shape fact `remaining + ply = depth` is no longer "read off the model": see C08.6. -/
 theorem killer_and_history_in_range :
     (∀ depth remaining rd : Nat, depth ≤ maxDepth → remaining + rd = depth → 2 ≤ remaining → rd < Gen.killerLen) ∧
     (∀ d h : Nat, d ≤ Gen.maxDepth → h ≤ 10000 → h + d ^ 3 < 65536) :=
@@ -63,6 +63,32 @@ theorem faithful_never_deeper_than_the_limit (o : Ops G M) (reqs : List (Req G))
       ∀ N, r.md = some N → 1 ≤ N → info.depth ≤ N :=
   sessionF_depths o reqs r
 
+open Chess.Search.Shape in
+/-- **C08.6 every table access of every run is in range.** The Rust code indexes the killer table
+with CHECKED indexing (a miss is a panic); the model's accessors are total, so an out-of-range
+index would be silent in the model exactly where the code fails. `driverS` is the faithful driver
+with strict accessors that raise a flag on a miss and an observer of the call shape at every node
+entry. For EVERY game, flag schedule, position, table and depth argument the strict run equals the
+faithful run, no killer access misses, and every node call satisfies
+`remaining + ply = max depth 1`, `1 ≤ ply ≤ MAX_DEPTH`, `remaining < MAX_DEPTH`. -/
+theorem every_killer_access_in_range (o : Ops G M) (runs : Nat → Bool) (g : G) (tt : Table M)
+    (off : Bool) (md : Option Nat) :
+    ((driverS o runs shapeObs g tt off md).out = driverF o runs g tt off md ∧
+     (driverS o runs shapeObs g tt off md).oobK = false ∧
+     (driverS o runs shapeObs g tt off md).offShape = false) ∧
+    (driverS o runs
+      (fun d r rd => decide ((r : Int) + rd = max d 1 ∧ 1 ≤ rd ∧ rd ≤ maxDepth ∧ r < maxDepth))
+      g tt off md).offShape = false :=
+  ⟨driverF_killer_accesses_in_range o runs g tt off md, driverF_calls_sum o runs g tt off md⟩
+
+open Chess.Search.Shape Chess.Search.F in
+/-- … and for chess also every history-table update, in every game the interface can reach, after
+any session of searches. -/
+theorem chess_every_table_access_in_range (reqs : List (Req Game)) (r : Req Game) (hr : Reach r.g) :
+    driverS Uci.chessOps r.runs shapeObs r.g (tableAfterF Uci.chessOps {} reqs) r.off r.md =
+      ⟨driverF Uci.chessOps r.runs r.g (tableAfterF Uci.chessOps {} reqs) r.off r.md, false, false, false⟩ :=
+  sessionF_table_accesses_in_range Uci.chessOps Game.WF chess_histOk reqs r (reach_wf hr)
+
 end Chess.Props.C08
 
 #print axioms Chess.Props.C08.never_deeper_than_the_limit
@@ -71,3 +97,5 @@ end Chess.Props.C08
 #print axioms Chess.Props.C08.fuel_never_runs_out
 #print axioms Chess.Props.C08.killer_and_history_in_range
 #print axioms Chess.Props.C08.faithful_never_deeper_than_the_limit
+#print axioms Chess.Props.C08.every_killer_access_in_range
+#print axioms Chess.Props.C08.chess_every_table_access_in_range
